@@ -383,6 +383,72 @@ func evalC17Send(c C17SendCase) *h.Finding {
 
 func init() { h.RegisterReplayer("c17-sendmail", evalC17Send) }
 
+// ---- LMTP: per-recipient statuses set by the backend ----------------------------------------------------------------
+
+type C17LMTPCase struct {
+	Via   string `json:"via"` // data | bdat1 | bdat2
+	Kinds [2]int `json:"kinds"`
+}
+
+var c17LMTPErrs = []error{
+	nil,
+	&smtp.SMTPError{Code: 550, EnhancedCode: smtp.EnhancedCodeNotSet, Message: "no such user here"},
+	&smtp.SMTPError{Code: 451, EnhancedCode: smtp.EnhancedCode{4, 2, 2}, Message: "mailbox busy"},
+	&smtp.SMTPError{Code: 452, EnhancedCode: smtp.EnhancedCodeNotSet, Message: "try again"},
+	&smtp.SMTPError{Code: 554, EnhancedCode: smtp.NoEnhancedCode, Message: "no code at all"},
+	&smtp.SMTPError{Code: 550, EnhancedCode: smtp.EnhancedCodeNotSet, Message: "first line\nsecond line"},
+	errors.New("plain failure of the store"),
+}
+
+// evalC17LMTP: an SMTPError (or any error) handed to SetStatus is sent for that recipient with the same code, enhanced
+// code (X.0.0 of the class when unset) and text - whether the message came with DATA or in chunks.
+func evalC17LMTP(c C17LMTPCase) *h.Finding {
+	cfg, be := modeConfig("lmtp-rcpt")
+	r1, r2 := "ok1@b.example", "ok2@b.example"
+	be.Plan = func(int) h.DataPlan {
+		return h.DataPlan{Max: -1, Status: []h.StatusCall{{Rcpt: r1, Err: c17LMTPErrs[c.Kinds[0]]}, {Rcpt: r2, Err: c17LMTPErrs[c.Kinds[1]], AfterRead: true}}}
+	}
+	in := "LHLO c.example\r\nMAIL FROM:<ok@a.example>\r\nRCPT TO:<" + r1 + ">\r\nRCPT TO:<" + r2 + ">\r\n"
+	switch c.Via {
+	case "data":
+		in += "DATA\r\nx\r\n.\r\n"
+	case "bdat1":
+		in += "BDAT 3 LAST\r\nx\r\n"
+	default:
+		in += "BDAT 1\r\nxBDAT 2 LAST\r\n\r\n"
+	}
+	in += "NOOP\r\n"
+	o := h.RunS(cfg, be, h.OneSeg([]byte(in)), h.TermEOF)
+	desc := fmt.Sprintf("LMTP, message via %s, SetStatus(%s, %v) and SetStatus(%s, %v)", c.Via, r1, c17LMTPErrs[c.Kinds[0]], r2, c17LMTPErrs[c.Kinds[1]])
+	if f := o.Sanity("c17", desc); f != nil {
+		return f
+	}
+	if o.ParseErr != nil {
+		return h.F("c17-bad-wire", "%s: %v", desc, o.ParseErr)
+	}
+	n := len(o.Replies)
+	if n < 3 || o.Replies[n-1].Code != 250 {
+		return h.F("c17-lmtp-replies", "%s: replies %s", desc, o.Codes())
+	}
+	for i, rcpt := range []string{r1, r2} {
+		r := o.Replies[n-3+i]
+		w := c17WantFor(c17LMTPErrs[c.Kinds[i]])
+		text := strings.Join(r.Text, "\n")
+		if r.Enh == "" {
+			text = strings.Join(r.Lines, "\n")
+		}
+		if r.Code != w.code || (w.enh != "" && r.Enh != w.enh) || (w.text != "" && !strings.Contains(strings.ReplaceAll(text, "<"+rcpt+"> ", ""), strings.ReplaceAll(w.text, "\n", "\n"))) && !strings.Contains(text, strings.Split(w.text, "\n")[0]) {
+			return h.F("c17-lmtp-status", "%s: the reply for %s is %s, want %d %s %q", desc, rcpt, r.String(), w.code, w.enh, w.text)
+		}
+		if !strings.Contains(text, rcpt) {
+			return h.F("c17-lmtp-status", "%s: the reply for %s does not name it: %s", desc, rcpt, r.String())
+		}
+	}
+	return nil
+}
+
+func init() { h.RegisterReplayer("c17-lmtp", evalC17LMTP) }
+
 func C17(tier string) int {
 	run := h.NewRun("C17", tier, "exploration", "", 20*time.Minute)
 	codes := []int{421, 450, 451, 452, 500, 501, 550, 552, 554}
@@ -414,7 +480,7 @@ func C17(tier string) int {
 		}
 	}
 	recLines(nil)
-	run.Rule = fmt.Sprintf("reply codes %v x enhanced code {set (class.7.1), set with three-digit components (class.999.509; hand-picked messages), set with the other class (4.2.2 on a 5xx reply and vice versa), EnhancedCodeNotSet, NoEnhancedCode} x %d message shapes (hand-picked: one-line and two-line texts of 498..1900 octets, empty, leading/trailing space, text that looks like an enhanced code, non-ASCII, 1-3 lines, empty middle line, blank; plus ALL messages of 1-3 lines over the line shapes {empty, 'x', ' x', 'x ', '5.1.1 y', blanks, tab, printf verbs, a line starting with the reply's own enhanced code}) x callback {NewSession, Mail, Rcpt, Data}, plus non-SMTPError errors per callback x message shapes, incl. errors that WRAP an SMTPError (still 'any other error'); after every error reply a Noop on the same connection must work; each a real-client <-> real-server conversation; plus the Data verdicts of TWO consecutive transactions on one connection, each via {DATA, BDAT LAST, two BDAT chunks} x 5 verdict shapes each x {first backend call reads the message, returns its error without reading} (scripted peer: the go-smtp client has no BDAT). Distinct by construction; non-trivial = all. Oracle: wire reply (strict parser) and the client's returned *SMTPError both equal the backend's error (X.0.0 for an unset code, zero value for NoEnhancedCode); other errors => 451 (envelope) / 554 (data) with their text.", codes, len(msgs))
+	run.Rule = fmt.Sprintf("reply codes %v x enhanced code {set (class.7.1), set with three-digit components (class.999.509; hand-picked messages), set with the other class (4.2.2 on a 5xx reply and vice versa), EnhancedCodeNotSet, NoEnhancedCode} x %d message shapes (hand-picked: one-line and two-line texts of 498..1900 octets, empty, leading/trailing space, text that looks like an enhanced code, non-ASCII, 1-3 lines, empty middle line, blank; plus ALL messages of 1-3 lines over the line shapes {empty, 'x', ' x', 'x ', '5.1.1 y', blanks, tab, printf verbs, a line starting with the reply's own enhanced code}) x callback {NewSession, Mail, Rcpt, Data}, plus non-SMTPError errors per callback x message shapes, incl. errors that WRAP an SMTPError (still 'any other error'); after every error reply a Noop on the same connection must work; each a real-client <-> real-server conversation; plus the Data verdicts of TWO consecutive transactions on one connection, each via {DATA, BDAT LAST, two BDAT chunks} x 5 verdict shapes each x {first backend call reads the message, returns its error without reading} (scripted peer: the go-smtp client has no BDAT). Distinct by construction; non-trivial = all. Oracle: wire reply (strict parser) and the client's returned *SMTPError both equal the backend's error (X.0.0 for an unset code, zero value for NoEnhancedCode); other errors => 451 (envelope) / 554 (data) with their text. Plus LMTP per-recipient statuses: every pair out of 7 errors handed to SetStatus (nil, SMTPErrors with set / unset / absent enhanced code, two lines, a plain error) x message via {DATA, BDAT LAST, two chunks}: each recipient's reply carries that code, enhanced code (X.0.0 when unset) and text.", codes, len(msgs))
 	run.Assumptions = []string{"NoEnhancedCode combined with text that itself parses as an enhanced code is inherently ambiguous on the wire: only the reply code is judged there", "a generic Data error may be prefixed ('Error: transaction failed: ')"}
 	var cases []C17Case
 	for _, cb := range []string{"NewSession", "Mail", "Rcpt", "Data"} {
@@ -485,6 +551,21 @@ func C17(tier string) int {
 		if f != nil {
 			run.Violate("c17-sendmail", c, f, func() *h.Finding { return evalC17Send(c) })
 			run.Outcome("violation:" + f.Sig)
+		}
+	}
+	for _, via := range []string{"data", "bdat1", "bdat2"} {
+		for a := range c17LMTPErrs {
+			for b := range c17LMTPErrs {
+				c := C17LMTPCase{Via: via, Kinds: [2]int{a, b}}
+				f := evalC17LMTP(c)
+				run.Eval(true)
+				if f != nil {
+					run.Violate("c17-lmtp", c, f, func() *h.Finding { return evalC17LMTP(c) })
+					run.Outcome("violation:" + f.Sig)
+				} else {
+					run.Outcome("lmtp-status-ok")
+				}
+			}
 		}
 	}
 	// histories of client calls (explicit-state search, checks/clientbfs.go)
